@@ -424,6 +424,21 @@ def _check_uf_outs(M, st, tr, mod, outs, pristine, mats, seq, cyc):
 # -------------------------------------------------------- scenario: extrema
 
 
+def _plant_inf(ch, vals, r, cols):
+    """An overflowed response: +/-inf in a max/min table row (kept consistent: max >= min)."""
+    k = ch.draw(4, "inf_kind")
+    if cols == 1:
+        vals[r, 0] = np.inf if k % 2 == 0 else -np.inf
+    elif k == 0:
+        vals[r, 0] = np.inf
+    elif k == 1:
+        vals[r, 1] = -np.inf
+    elif k == 2:
+        vals[r, :] = np.inf
+    else:
+        vals[r, :] = -np.inf
+
+
 def scenario_extrema(ch, tr, st):
     """Direct cla.extrema folds of 1- and 2-column mm sequences."""
     M = modules()
@@ -464,6 +479,9 @@ def scenario_extrema(ch, tr, st):
                 if ch.flip(1, 6, "nan"):
                     vals[r, :] = np.nan
                     st.fault("nan_cells")
+                elif ch.flip(1, 10, "inf"):
+                    _plant_inf(ch, vals, r, cols)
+                    st.fault("inf_cells")
         xs = None
         if (ch.flip(1, 2, "x_this_case") if mixed_x else with_x):
             xs = np.array([[float(10 * j + c + 100 * r) for c in range(cols)] for r in range(rows)])
@@ -477,7 +495,7 @@ def scenario_extrema(ch, tr, st):
             mincase = f"c{j}m" if cols == 2 and ch.flip(1, 3, "mincase_given") else None
         as_int = False
         if int_tables:
-            if not np.isnan(vals).any() and ch.flip(1, 2, "int_this_case"):
+            if np.isfinite(vals).all() and ch.flip(1, 2, "int_this_case"):
                 as_int = True
                 st.fault("integer_table")
             elif ch.flip(1, 2, "half_this_case"):
@@ -618,6 +636,9 @@ def scenario_external(ch, tr, st):
                     if ch.flip(1, 6, "nan"):
                         vals[r, :] = np.nan
                         st.fault("nan_cells")
+                    elif ch.flip(1, 10, "inf"):
+                        _plant_inf(ch, vals, r, cols)
+                        st.fault("inf_cells")
             xs = None
             if (ch.flip(1, 2, "x_this_event") if mixed_x else with_x):
                 xs = np.array([[float(10 * e + k + 100 * r) for k in range(cols)] for r in range(rows)])
@@ -632,7 +653,7 @@ def scenario_external(ch, tr, st):
             given = vals.copy()
             given_x = None if xs is None else xs.copy()
             if int_tables:
-                if not np.isnan(vals).any() and ch.flip(1, 2, "int_this_event"):
+                if np.isfinite(vals).all() and ch.flip(1, 2, "int_this_event"):
                     # "2d array_like": an integer array, or a nested list of ints
                     given = vals.astype(np.int64) if ch.flip(1, 2, "int_as_array") else [[int(v) for v in row] for row in vals]
                     given_x = None if xs is None else xs.astype(np.int64)
@@ -778,19 +799,25 @@ def draw_config(ch, rng, nmodes, cfgname, domain_hint, allow_srs):
             ov = tuple([None, 1.1, 0.0, 2.0][ch.weighted([3, 2, 1, 1], "uf_override_val")] for _ in range(4))
             if all(v is None for v in ov):
                 ov = (None, None, 1.2, None)
-            meth = ["replace", "multiply", "add"][ch.draw(3, "uf_method")]
+            meth = ["replace", "multiply", "add", "old+new/2"][ch.draw(4, "uf_method")]
         for cs in grp:
             cs.group = gi
             cs.uf_override = ov
             cs.uf_method = meth
             if ov is not None:
-                f = {"replace": lambda o, n: n, "multiply": lambda o, n: o * n, "add": lambda o, n: o + n}[meth]
+                f = {"replace": lambda o, n: n, "multiply": lambda o, n: o * n, "add": lambda o, n: o + n, "old+new/2": lambda o, n: o + 0.5 * n}[meth]
                 cs.uf = tuple(o if n is None else f(o, n) for o, n in zip(cs.uf_def, ov))
     return cats
 
 
 def _uf_add(old, new):
     return old + new
+
+
+def _uf_old_plus_half_new(old, new):
+    """A callable override rule that is NOT symmetric in (old, new): the documented
+    argument order `method(old, new)` matters."""
+    return old + 0.5 * new
 
 
 def build_DR(M, cats, cfgname, srsfrq):
@@ -803,7 +830,7 @@ def build_DR(M, cats, cfgname, srsfrq):
         if ov is None:
             DR.add(None, drdefs)
         else:
-            DR.add(None, drdefs, uf_reds=ov, method=_uf_add if meth == "add" else meth)
+            DR.add(None, drdefs, uf_reds=ov, method={"add": _uf_add, "old+new/2": _uf_old_plus_half_new}.get(meth, meth))
     # the event must know every distinct factor tuple
     for cs in cats:
         if tuple(DR.Info[cs.name].uf_reds) != tuple(cs.uf):
@@ -1820,5 +1847,5 @@ ASSUMPTIONS = [
 EXPECTED_FAULTS = [
     "psd_domain", "clock_jump_backwards", "clock_jump_forwards", "external_maxmin", "merge_rename", "mixed_abscissa", "model_varies_between_events", "zero_force_psd_row", "nan_cells", "ties", "ties_quantised", "one_column_ext", "label_mismatch", "j_out_of_order", "interleaved_events", "view_drfunc",
     "cache_reuse", "cache_reuse_repeat_uf", "stale_extreme_rebuild", "shared_DR_Event", "envelope_multi_event", "split_merge", "calc_ext",
-    "integer_table", "mixed_depth_tree", "merge_of_merged_results", "force_trimming", "checkpoint_saved", "crash_restart_from_checkpoint", "crash_restart_from_scratch", "crash_lost_cases_redone", "summary_copy", "summary_copy_stripped",
+    "integer_table", "inf_cells", "mixed_depth_tree", "merge_of_merged_results", "force_trimming", "checkpoint_saved", "crash_restart_from_checkpoint", "crash_restart_from_scratch", "crash_lost_cases_redone", "summary_copy", "summary_copy_stripped",
 ]
